@@ -228,6 +228,112 @@ def ob_construction(cx):
     cx.observe("recipe", (len(start), len(stop), count))
 
 
+K_REFINE = "C33-refine-reaches-seen-revision-through-unseen-one"
+
+
+def ob_refine(cx):
+    """SearchResult.refine: a fetch from a stack of repositories asks the first one, notes which revisions it got (seen) and
+    which parents those mention (referenced), refines the search and sends the refined description to the next repository.
+    Graph shape, and which repository holds which revision, are symbolic.  The walk the refined description makes the second
+    repository perform must be exactly the continuation of the first walk: no revision missing, none sent twice."""
+    V = cx.mod(VS)
+    T = cx.truth
+    alpha = b"abcd" + NULL
+    n = cx.choose("nkeys", 1, cx.p("nkeys"))
+    keys, parents = [], []
+    for i in range(n):
+        k = cx.bytes("key%d" % i, 1, b"abcd")
+        for o in keys:
+            cx.assume(o[0] < k[0])                     # listed children first: ids distinct and ordered
+        keys.append(k)
+    for i in range(n):
+        ps = []
+        for j in range(cx.choose("nparents%d" % i, 1, 2)):
+            p = cx.bytes("parent%d_%d" % (i, j), 1, alpha)
+            cx.assume(p[0] > keys[i][0])               # acyclic
+            for o in ps:
+                cx.assume(o != p)
+            cx.assume(T(p == NULL) or any(T(p == k) for k in keys[i + 1:]))     # no ghosts: a parent is a key or null
+            ps.append(p)
+        parents.append(ps)
+
+    def member(x, xs):
+        return any(T(x == y) for y in xs)
+
+    def index(x):
+        for i, k in enumerate(keys):
+            if T(k == x):
+                return i
+        return None
+    in_first = [cx.bool("in_first%d" % i) for i in range(n)]
+    in_second = [cx.bool("in_second%d" % i) for i in range(n)]
+    heads = [k for i, k in enumerate(keys) if not any(member(k, ps) for ps in parents)]
+    # what the first repository streams: the walk from the heads through the revisions it holds
+    seen, frontier = [], list(heads)
+    while frontier:
+        x = frontier.pop()
+        i = index(x)
+        if i is None or member(x, seen) or not T(in_first[i]):
+            continue
+        seen.append(x)
+        frontier.extend(parents[i])
+    referenced = []
+    for s in seen:
+        for p in parents[index(s)]:
+            if not member(p, referenced):
+                referenced.append(p)
+
+    def mkset(xs):
+        if cx.sym:
+            from symx.containers import SymSet
+            return SymSet(xs)
+        return set(xs)
+    overall = V.SearchResult(mkset(heads), mkset([NULL]), n, mkset(keys))
+    refined = overall.refine(mkset(seen), mkset(referenced))
+    _kind, start, exclude, count = refined.get_recipe()
+    start, exclude = list(start), list(exclude)
+    # the second repository replays the refined description: from the start keys, not entering the stop keys, through what it holds
+    walked, frontier = [], list(start)
+    while frontier:
+        x = frontier.pop()
+        if member(x, exclude) or member(x, walked) or T(x == NULL):
+            continue
+        i = index(x)
+        cx.require(i is not None, "the refined description starts at an unknown revision")
+        if not T(in_second[i]):
+            continue                                   # absent there: a ghost for this server
+        walked.append(x)
+        frontier.extend(parents[i])
+    # intended: the continuation of the first walk (what was not seen, reachable from where the first walk stopped)
+    intended, frontier = [], [h for h in heads if not member(h, seen)] + [r for r in referenced if not member(r, seen)]
+    while frontier:
+        x = frontier.pop()
+        i = index(x)
+        if i is None or member(x, seen) or member(x, intended) or not T(in_second[i]):
+            continue
+        intended.append(x)
+        frontier.extend(parents[i])
+    unseen = [k for k in keys if not member(k, seen)]
+    in_class = any(member(p, seen) for u in unseen for p in parents[index(u)])
+    if in_class:
+        # recorded behaviour of the known finding: nothing is missing, and whatever is sent in excess was seen before
+        cx.require(all(member(x, walked) for x in intended), "a revision the client still needs is not covered by the refined search")
+        cx.require(all(member(w, intended) or member(w, seen) for w in walked), "the refined search walks an unrelated revision")
+    cx.known(K_REFINE, in_class)
+    cx.require(all(member(x, walked) for x in intended), "a revision the client still needs is not covered by the refined search")
+    extra = [w for w in walked if not member(w, intended)]
+    cx.require(not extra, "the refined search makes the server send %d revision(s) the client already has" % len(extra))
+    cx.require(T(count == n - len(seen)), "refined count %r, %d revisions are still wanted" % (count, n - len(seen)))
+    if all(T(in_second[index(u)]) for u in unseen):
+        cx.require(T(count == len(walked)), "the server's count check fails: count %r, walk %d" % (count, len(walked)))
+        cx.cover("count_matches")
+    if seen and unseen:
+        cx.cover("split_between_repositories")
+    if any(not member(s, heads) for s in seen):
+        cx.cover("seen_non_head")
+    cx.observe("sizes", (len(seen), len(walked)))
+
+
 def obligations(tier):
     q = tier == "quick"
     p = dict(nids=2, lid=2 if q else 3, maxcount=99999)
@@ -244,4 +350,8 @@ def obligations(tier):
            bounds="parent maps of <= %d keys with 0..2 parents each; keys, parents and <= %d missing keys are symbolic ids over "
                   "5 letters (one of them the null revision), so every graph shape over them is covered"
                   % ((2, 1) if q else (3, 2))),
+        Ob("refine", ob_refine, [(VS, dict(symdict=True))], dict(nkeys=3 if q else 4), to, 2 if q else 1,
+           ["split_between_repositories", "seen_non_head", "count_matches"], known=[K_REFINE],
+           bounds="graphs of <= %d revisions with 1..2 parents each (symbolic ids: every shape), each revision held by the first "
+                  "and / or the second repository (symbolic); the search is 'everything from the heads'" % (3 if q else 4)),
     ]
